@@ -642,12 +642,12 @@ WITNESSES = [
     ("F11e-more-parses-than-cache-leaks-statement", 2, 1,
      [P(0, 1, 10), P(0, 2, 11), P(0, 3, 12), S(0, 0), B(0, 1), E(0), S(0, 0), B(0, 1), E(0), S(0, 0)],
      "F11e: k+1 Parses in one batch with cache size k: PGCAT_0 is evicted (Close sent) before its Parse reaches the backend, so the backend keeps a statement the cache does not know; the next Bind s1 re-Parses it (42P05, swallowed, s1 dropped from the client map) and the Bind after that disconnects the client"),
-    ("F11g-failed-parse-stays-in-map-drains-other-registration", 4, 2,
-     [P(0, 9, 90), S(0, 1), P(0, 1, 10), B(0, 9), E(0), S(0, 0), P(1, 1, 10), B(1, 1), E(1), S(1, 0)],
-     "F11g (unrepaired half): a Parse that failed stays in the client map; a later batch [Parse s1 good, Bind s9, Execute, Sync] re-sends the bad Parse out of band, its ErrorResponse drains the registering queue INCLUDING PGCAT_1 whose Parse is still waiting in the batch: the backend gets PGCAT_1, the cache forgets it; the next client preparing that text gets 42P05"),
-    ("F11f3-deallocate-all-then-parse-same-batch", 4, 1,
-     [P(0, 1, 99), B(0, 1), E(0), P(0, 2, 10), S(0, 0), P(1, 1, 10), B(1, 1), E(1), S(1, 0)],
-     "F11f3: DEALLOCATE ALL executed in a batch that also Parses a statement AFTER it: CommandComplete clears the whole server cache, including the name registered for the later Parse, which the backend then does create; the next Parse of that text gets 42P05"),
+    ("F11h-close-after-error-in-batch", 4, 1,
+     [P(0, 1, 10), S(0, 0), P(0, 2, 95), B(0, 2), E(0), C(0, 1), S(0, 0), B(0, 1), E(0), S(0, 0)],
+     "F11h: after an ErrorResponse PostgreSQL skips everything up to Sync; pgcat still applies the rest of the batch to its client map and synthesises the acknowledgements: [P s2 failing at Execute, B s2, E, C s1, S] answers 3,1,2,E,Z and forgets s1 (a direct connection skips the Close), the next Bind s1 disconnects the client"),
+    ("F11h-parse-after-error-acknowledged", 4, 1,
+     [P(0, 1, 10), S(0, 0), P(0, 2, 95), B(0, 2), E(0), P(0, 3, 10), S(0, 0), B(0, 3), E(0), S(0, 0)],
+     "F11h (mirror image): a Parse that follows the failing message is acknowledged from the server cache and usable afterwards, a direct connection skips it (26000 on the later Bind)"),
     ("L-failed-parse-then-bind-twice-disconnects", 4, 1,
      [P(0, 1, 90), S(0, 0), B(0, 1), E(0), S(0, 0), B(0, 1), E(0), S(0, 0)],
      "lenient/by design: Bind of a name that does not exist answers ErrorResponse+ReadyForQuery and then DISCONNECTS the client (a direct connection answers 26000 and carries on)"),
@@ -660,6 +660,10 @@ FINE = [
     ("fixed-F11c-close-parse-bind-same-batch", 8, 1, [P(0, 1, 10), S(0, 0), C(0, 1), P(0, 1, 11), B(0, 1), E(0), S(0, 0), P(1, 5, 11), B(1, 5), E(1), S(1, 0)]),
     ("fixed-F11d-bind-then-reparse-other-server", 8, 2, [P(0, 1, 10), S(0, 0), B(0, 1), E(0), C(0, 1), P(0, 1, 11), S(0, 1)]),
     ("fixed-F11f-client-deallocate-all", 4, 1, [P(0, 1, 10), S(0, 0), P(1, 1, 99), B(1, 1), E(1), S(1, 0), B(0, 1), E(0), S(0, 0)]),
+    ("fixed-F11g-out-of-band-error-drains-only-its-own-registration", 4, 2,
+     [P(0, 9, 90), S(0, 1), P(0, 1, 10), B(0, 9), E(0), S(0, 0), P(1, 1, 10), B(1, 1), E(1), S(1, 0)]),
+    ("fixed-F11f3-deallocate-all-then-parse-same-batch", 4, 1,
+     [P(0, 1, 99), B(0, 1), E(0), P(0, 2, 10), S(0, 0), P(1, 1, 10), B(1, 1), E(1), S(1, 0)]),
     ("fixed-F11g-close-of-evicted-not-skipped", 2, 2,
      [P(1, 1, 10), S(1, 0), P(1, 2, 11), S(1, 0), P(0, 1, 90), S(0, 1), B(0, 1), E(0), S(0, 0), B(1, 1), E(1), S(1, 0), B(1, 1), E(1), S(1, 0)]),
     ("ii-pool-eviction-while-client-holds-arc", 1, 1, [P(0, 1, 10), S(0, 0), P(1, 1, 11), S(1, 0), P(1, 2, 10), B(1, 2), E(1), S(1, 0), B(0, 1), E(0), S(0, 0)]),
@@ -778,9 +782,8 @@ def wire_cases(seed=1, n=50):
 # ------------------------------------------------------------------------------------------------ layer 2 on the wire
 F11 = {
     "F11e": "F11e-more-statements-in-a-batch-than-cache",
-    "F11g": "F11g-failed-parse-stays-in-client-map",
-    "F11f3": "F11f3-deallocate-all-then-parse-same-batch",
-    "lenient": "L-unknown-name-disconnects/close-unnamed-kept",
+    "F11h": "F11h-rest-of-batch-not-skipped-after-error",
+    "lenient": "L-unknown-name-disconnects/close-unnamed-kept/own-deallocate-all-survived",
 }
 
 
@@ -789,9 +792,9 @@ def classify_gap(prog):
     k, cls = prog["k"], set()
     sts = {o["st"] for o in prog["ops"] if o["op"] == "Parse"}
     if any(90 <= s <= 97 for s in sts):
-        cls |= {"F11g", "lenient"}          # a failed Parse stays in the client map; Bind of a name that does not exist disconnects
+        cls |= {"F11h", "lenient"}          # the rest of a failed batch is not skipped; Bind of a name that does not exist disconnects
     if 99 in sts:
-        cls.add("F11f3")
+        cls.add("lenient")                  # a client's own DEALLOCATE ALL does not remove its names from the client map
     batch, tabs = {}, {}
     for o in prog["ops"]:
         kd = o["op"]
@@ -804,7 +807,7 @@ def classify_gap(prog):
                     need += 1; known.add(x["n"]); t.add(x["n"])
                 elif x["op"] in ("Bind", "Describe"):
                     if x["n"] not in t:
-                        cls.add("lenient")
+                        cls |= {"lenient", "F11h"}
                     if x["n"] not in known:
                         need += 1; known.add(x["n"])
                     bound = bound or x["op"] == "Bind"
@@ -813,7 +816,7 @@ def classify_gap(prog):
                     if x["n"] == 0:
                         cls.add("lenient")
                 elif x["op"] == "Execute" and not bound:
-                    cls.add("lenient")
+                    cls |= {"lenient", "F11h"}
             if need > k:
                 cls.add("F11e")
         elif kd != "Cleanup":
@@ -909,6 +912,8 @@ def wire_tie(run, quick, extra=()):
                               dict(rep, impl={str(c): v for c, v in a.items()}, direct={str(c): v for c, v in spec.items()}))
                 return st
             st["guard_false_differs_known_class"] += 1
+            if p["name"].startswith("F11"):
+                st.setdefault("witnesses_reproduced", []).append(p["name"])
             for x in cls:
                 st["known_classes_seen"][x] = st["known_classes_seen"].get(x, 0) + 1
     # every hand-made witness must still separate pgcat from a direct connection (else: fixed -> update the model)
@@ -979,7 +984,7 @@ def check(run):
         evals += wt.get("scenarios", 0)
         run.log("layer 2 on the wire: %s" % wt)
         for (nm, k, ns, ops, why) in WITNESSES:
-            if nm.startswith("F11") and not run.violations:
+            if nm.startswith("F11") and not run.violations and nm in wt.get("witnesses_reproduced", []):
                 fid = F11[nm.split("-")[0]]
                 run.known_finding("%s confirmed on the wire (pgcat = model, differs from a direct connection): cache size %d, %s — %s" % (fid, k, prog_coq(ops), why.split(": ", 1)[-1][:260]), key=fid)
     run.cov["layer2_wire"] = wt
